@@ -46,6 +46,7 @@ package lspcommon
 //@ func offsetForStartAndEnd
 //@   props C02
 //@   sweep C01
+//@   opt infer
 //@   requires WF(contents, 0)
 //@   requires[doc-under-4GiB] len(contents) < 4294967295
 //@   ensures[start-is-lsp-position] err == nil ==> atPos(contents, startOffset, startPos.Line, startPos.Character)
@@ -66,6 +67,7 @@ package lspcommon
 //@ func (*FileMapCache).ApplyContentChanges
 //@   props C02
 //@   sweep C01
+//@   opt infer
 //@   requires[protocol-conformant] forall(k, 0, len(changes), changes[k].Range == nil ==> changes[k].RangeLength == 0)
 //@   loop 0 assume WF(contents, 0) && len(contents) < 4294967295
 //@   loop 0 decreases len(changes) - rangeindex
